@@ -1099,3 +1099,110 @@ KNOWN_SITES = {
     "templatewriter/pages/table.py:TableRow.name:taglink": "rows 2, 4, 5: table, inittable, basetable",
     "templatewriter/pages/table.py:TableRow.name:url": "rows 2, 4, 5",
 }
+
+
+# =========================================================================== the run shared by c11.py / c12.py
+
+def dead_links(res: Dict[str, Any]):
+    """(page file, producer, href, label, why) for every attributed link that leads nowhere"""
+    cr = res["crawl"]
+    for fn, prod, href, label in all_links(res):
+        if not is_relative(href):
+            continue
+        ok, why = resolve_ref(cr, fn, href)
+        if not ok:
+            yield fn, prod, href, label, why
+
+
+def _model_dead_set(items: str) -> List[str]:
+    out = []
+    for it in items.split():
+        row, _, rest = it.partition(":")
+        parts = rest.split(">")
+        if row == "alldocs":
+            out.append("S:all-documents>" + parts[1])
+        else:
+            out.append(parts[0] + ">" + parts[1])
+    return out
+
+
+def crawl_and_compare(ctx, n_random: int, rule_lists: int, extra_cases: Sequence[Dict[str, Any]] = ()) -> List[Dict[str, Any]]:
+    """generate, run pydoctor, crawl, compare every producer section with the Lean model.
+    Returns the results (each with res['truth'], res['model'] = parsed model sections or None)."""
+    from .core import Infra, REPO
+    cases = list(extra_cases) + make_cases(ctx.rng, n_random, rule_lists)
+    jobs = int(os.environ.get("VERIF_JOBS", "16"))
+    results = run_cases(cases, jobs=jobs)
+    good = [r for r in results if "facts" in r]
+    for r in results:
+        if "crash" in r:
+            ctx.count("run-crash:" + r["crash"].split(":")[0].split("(")[0])
+    if len(good) < 0.7 * len(results):
+        raise Infra("more than 30%% of the pydoctor runs aborted: %s" % [r.get("crash") for r in results if "crash" in r][:3])
+    # the producer table is complete: every call site that builds a link is known
+    sites = set(scan_call_sites(REPO))
+    ctx.traces_validated += 1
+    if sites != set(KNOWN_SITES):
+        ctx.disagree("producer-table", {"new-sites": sorted(sites - set(KNOWN_SITES)), "gone": sorted(set(KNOWN_SITES) - sites)},
+                     "sites known to the model: %d" % len(KNOWN_SITES), "sites found in the code: %d" % len(sites))
+    answers: List[Optional[str]] = [None] * len(good)
+    if ctx.model_ok:
+        answers = list(ctx.driver.run_parallel([request_line(r["facts"]) for r in good]))
+    for r, ans in zip(good, answers):
+        r["truth"] = Truth(r["facts"])
+        r["model"] = None
+        secs = parse_answer(ans) if ans is not None else None
+        if ans is not None and secs is None:
+            ctx.disagree("output:protocol", r["case"], ans[:200], "ok …")
+            continue
+        if secs is None:
+            continue
+        r["model"] = secs
+        if "wf=1" not in secs["_head"]:
+            ctx.count("model-wf-false")
+        ms = model_sections_for_compare(secs)
+        im = impl_sections(r)
+        ms["dead-set"] = _canon(_model_dead_set(secs.get("dead", "")))
+        im["dead-set"] = _canon(r["crawl"]["pages"][fn]["page"] + ">" + canon_href(href)
+                                for fn, prod, href, label, why in dead_links(r) if prod != "inhierarchy")
+        for sec in sorted(set(ms) | set(im)):
+            a, b = ms.get(sec, ""), im.get(sec, "")
+            ctx.traces_validated += 1
+            if a.strip():
+                ctx.count("section-nonempty:" + sec)
+            if a != b:
+                sa, sb = set(a.split()), set(b.split())
+                ctx.disagree("output:" + sec, r["case"], "model only: " + " ".join(sorted(sa - sb)[:8]),
+                             "implementation only: " + " ".join(sorted(sb - sa)[:8]))
+        full = r["crawl"]["search"]
+        if full.get("searchindex.json") != full.get("fullsearchindex.json"):
+            ctx.disagree("output:search-full", r["case"], "same documents", "searchindex.json and fullsearchindex.json differ")
+    return good
+
+
+def replay_case(ctx, obj) -> Tuple[Optional[Dict[str, Any]], Optional[Dict[str, str]]]:
+    inp = obj.get("input") or obj.get("request") or obj
+    case = case_from_payload(inp)
+    print("case:", case["name"], "privacy:", case["privacy"], "opts:", case["opts"])
+    for u in case["units"]:
+        print("# %s%s" % (u.qname, "/" if u.is_package else ""))
+        print(u.source)
+    buf = io.StringIO()
+    with contextlib.redirect_stdout(buf):
+        res = run_case(case)
+    if "facts" not in res:
+        print("pydoctor aborted:", res.get("crash"))
+        return None, None
+    res["truth"] = Truth(res["facts"])
+    ans = ctx.driver.run([request_line(res["facts"])])[0]
+    secs = parse_answer(ans)
+    if secs is not None:
+        ms = model_sections_for_compare(secs)
+        im = impl_sections(res)
+        for sec in sorted(set(ms) | set(im)):
+            a, b = set(ms.get(sec, "").split()), set(im.get(sec, "").split())
+            print("[%s] %s (%d items)" % ("same" if a == b else "DIFFER", sec, len(b)))
+            if a != b:
+                print("   model only:", sorted(a - b)[:10])
+                print("   impl  only:", sorted(b - a)[:10])
+    return res, secs
